@@ -39,7 +39,7 @@ func c14Missing(n int) []bool {
 func VerifC14Reissue() {
 	maxN := 3
 	if vrt_Tier() > 0 {
-		maxN = 5
+		maxN = 4
 	}
 	n := 2 + vrt_Choose("N", maxN-1)
 	fs := c05Transfer("t", 0x0801, n, 0)
